@@ -2,20 +2,23 @@ CONFIG = {
     "rule": "cases = (operator | conversion | builtin, operand tuple); floats are 64-bit patterns (16 hex digits), ints are machine words (i) or *py.BigInt (b); "
             "enumerated over the lattice of special doubles (+-0, subnormals, 1+-ulp, halves, 2^52/2^53/2^63/2^64 neighbours, 1e16/1e22/1e-4 text thresholds, max, +-inf, nan) x boundary ints "
             "(0, +-1, 2^53+-1, 2^63+-1, 2^64+2^11+1, 10^22, 2^1023, 2^1024-2^970 -+1, 2^1024, 2^1100) x {+ - * / // % divmod ** < <= == != > >=}, int(), float(), str, float(repr()), round (13 ndigits), "
-            "sum/min/max/abs/pow/divmod builtins, plus VERIF_SEED-derived random bit patterns and ints (1..1100 bits); "
-            "non-trivial = some operand is zero/subnormal/non-finite/>= 2^52 in magnitude/an exact half, or an int with |v| >= 2^53, or the operation is // % divmod round str int() float(), or the spec result is an exception; distinct = distinct input lines",
+            "sum/min/max/abs/pow/divmod builtins; complex operands (c<re>:<im>, 18 lattice values with signed zeros, 2^53/2^63/2^64 real parts, max, inf, nan parts) x every lattice operand x {+ - * == != < <= > >=}, unary - + bool; "
+            "plus VERIF_SEED-derived random bit patterns, ints (1..1100 bits) and complex numbers; "
+            "non-trivial = some operand is complex/zero/subnormal/non-finite/>= 2^52 in magnitude/an exact half, or an int with |v| >= 2^53, or the operation is // % divmod round str int() float(), or the spec result is an exception; distinct = distinct input lines",
     "trusted_base": [
         "Lean 4.33.0 kernel; axioms allowed: propext, Classical.choice, Quot.sound (audited per theorem on every run)",
         "IEEE-754 hardware and Go's math package (+ - * / Floor Mod Pow RoundToEven, int64<->float64 conversion): NOT proved; the executable model and spec both use Lean's native Float on the same hardware (exact dyadic code for fmod/RoundToEven)",
         "math/big (big.Float.SetInt/SetFloat64/Cmp exact; big.Float.Float64 and big.Rat.Float64 round to nearest even) and strconv (FormatFloat -1 = shortest digits that read back; ParseFloat correctly rounded): assumed; their contracts are the Lean functions rneNat/rneRat/shortest, exercised by every run",
         "lean/GPy/C15/Spec.lean: Python's definitions on exact rationals (Rat) - correctly rounded int->float, truncation, exact int/float comparison, half-even rounding, floored modulo rounded once, CPython's float_divmod, repr layout",
-        "lean/GPy/C15/Model.lean: hand transliteration of py/float.go, the float paths of py/int.go and py/bigint.go, the dispatch of py/arithmetic.go and builtin round/sum/min/max; tied to the worktree by the correspondence run only",
+        "lean/GPy/C15/Model.lean: hand transliteration of py/float.go, py/complex.go (+ - * == != bool neg), the float paths of py/int.go and py/bigint.go (intTrueDiv = big.Rat.Float64), the dispatch of py/arithmetic.go and builtin round/sum/min/max; tied to the worktree by the correspondence run only",
         "harness/c15.go and checks/common.py",
     ],
     "assumptions": [
         "partial by nature: correct rounding of the hardware operations and of strconv's shortest-digit search is trusted, not proved",
         "pow is compared bit-for-bit only where the IEEE result is exact (bases with <= 13 significant bits, integer exponents |y| <= 4, special values): Go's math.Pow and libm may differ by an ulp elsewhere",
-        "complex numbers are not modelled",
+        "complex numbers: only + - * == != (and the TypeError of the orderings), unary - + and truth are modelled by value; complex / // % ** abs and the text form of a complex are not covered (the model marks them opaque and no case is generated)",
+        "float ** float with a complex result (negative ** fraction) is checked only to BE a complex number (cmplx.Pow's value is not specified bit for bit)",
+        "the theorems floordiv_mod_sign, divmod_identity_partial, round_half_even_float are relative to the hardware contract FPContract (Spec.lean): fmod/floor/RoundToEven exact, < exact, opposite-sign addition monotone - stated, not proved; FP.native is exercised against the real code by every run",
         "int (x) int arithmetic is C07's; here only int/int true division, int ** negative int and the builtins that mix ints with floats",
     ],
     "exhaustive": False,
